@@ -403,7 +403,27 @@ impl<'a> RefCtx<'a> {
                 for _ in 0..n {
                     d = d.then(&Wit::one(Item::Empty));
                 }
-                SD { sat, dis: vec![d], truncated: tr }
+                let mut dis = vec![d];
+                if adv {
+                    // non-canonical: any number of valid signatures other than k leaves 0 (NUMEQUAL fails)
+                    for mask in 1u32..(1u32 << m.min(6)) {
+                        let cnt = mask.count_ones() as usize;
+                        if cnt == k {
+                            continue;
+                        }
+                        let chosen: Vec<usize> = (0..m.min(6)).filter(|b| mask & (1 << b) != 0).map(|b| idxs[b]).collect();
+                        let mut w = Wit::empty();
+                        for pos in (0..n).rev() {
+                            if chosen.contains(&pos) {
+                                w = w.then(&Wit::one(Item::Sig(ids[pos])));
+                            } else {
+                                w = w.then(&Wit::one(Item::Empty));
+                            }
+                        }
+                        dis.push(w.noncanon());
+                    }
+                }
+                SD { sat, dis, truncated: tr }
             }
         };
         let mut t = sd.truncated || tr;
